@@ -429,3 +429,24 @@ Proof.
   - now left.
 Qed.
 
+
+(* C03 (start-up timeout): the start-up deadline is ONE timer per readiness wait, armed when the wait begins
+   (the model is untimed: the step LGateTimeout j is enabled from then on, while Run() is not inside a slow
+   IsRunning() call).  Once it has fired for gate j, Run() has fixed the start-up timeout error as its result, no
+   further runnable is ever started, and that error is what Run() returns. *)
+Theorem sup_c03_startup_timeout_aborts c s j s1 ls s2 :
+  step c s (LGateTimeout j) = Some s1 -> run (step c) s1 ls = Some s2 ->
+  main s = MGate j /\ startup_may_fire c = true /\ su_fired (aux s1) = true /\
+  launched s2 = launched s /\ main_res (main s2) = Some ResTimeout /\
+  (forall r, main s2 = MReturned r -> r = ResTimeout).
+Proof.
+  intros H1 H2. unfold step in H1. cbn [step0] in H1.
+  destruct (main s) eqn:Em; try discriminate H1.
+  destruct (_ && _) eqn:G; [|discriminate H1]. injection H1 as <-.
+  repeat (apply andb_true_iff in G as [G ?]). apply Nat.eqb_eq in G. subst i.
+  assert (P : past_startup (set_main (set_su_fired s) (MExit ResTimeout))) by exact Logic.I.
+  assert (M : main_res (main (set_main (set_su_fired s) (MExit ResTimeout))) = Some ResTimeout) by reflexivity.
+  pose proof (sup_c03_abort c _ ls s2 P H2) as L. pose proof (main_res_run c ls _ _ _ M H2) as R.
+  repeat split; auto.
+  intros r Hr. rewrite Hr in R. cbn in R. congruence.
+Qed.
